@@ -9,6 +9,7 @@ Hence the chain  description → `buildSystem` → marshalling in any engine uni
 is closed inside Lean (`built_marshal_euler_general_units_grid`).
 -/
 import Strengths.Props.C01Units
+import Strengths.Model.Network
 
 namespace Strengths.C01
 open Strengths Strengths.Gen Strengths.Spec
@@ -255,6 +256,12 @@ theorem buildSpace_wf {parent : Sys} {edges : List Rat} {d : SpaceD} {sp : PySpa
           · intro e hem
             obtain ⟨ed, _, hp⟩ := mapRes_mem _ _ _ hes e hem
             exact buildEdge_wf hp
+
+/-- where `hsto` below comes from: `Reaction.ssto` / `psto` (Model/Network.lean, entry formulas generated from rdnetwork.py) map over
+the network's species labels, so they have exactly one entry per declared species -/
+theorem sto_vectors_one_entry_per_species (sub prod : Side) (labels : List Label) :
+    (sstoVec sub prod labels).length = labels.length ∧ (pstoVec sub prod labels).length = labels.length := by
+  simp [sstoVec, pstoVec]
 
 /-- **every system the builders accept is well-formed** (stoichiometric vectors over the declared species: `hsto`) -/
 theorem buildSystem_wf (parent : Sys) (edges : List Rat) (d : SystemD) (b : Built)
